@@ -66,6 +66,10 @@ def run(ctx):
     for it in range(nb):
         boundary = rng.choice(["----VerifBoundary7MA4YWxk", "BOUND", "b", "x-y_z"])
         content = rng.choice(contents + [rng.bytes(rng.range(0, 200)), rng.bytes(rng.range(0, 200), b"\r\n-" + boundary.encode())])
+        if b"\r\n--" + boundary.encode() in content:
+            # a file part cannot contain its own delimiter: such a form does not say what the content is
+            boundary = "----VerifBoundary7MA4YWxk"
+            content = content.replace(b"\r\n--" + boundary.encode(), b"")
         key = rng.choice(["uploads/a b.txt", "uploads/é.bin", "k", "uploads/../x", "uploads/${filename}"])
         extra = rng.choice([[], [("x-amz-meta-a", "1"), ("X-Amz-Meta-B", "two words")], [("Content-Type", "text/plain"), ("acl", "public-read")],
                             [("x-amz-meta-a", "1"), ("x-amz-meta-a", "2")], [("unknown-field", "zzz")], [("success_action_status", "201")],
@@ -99,6 +103,18 @@ def run(ctx):
             for cut in range(at + 1, at + len(delim)):
                 fr = (lambda body, cut=cut: [body[:cut], body[cut:]])
                 add("form:delimiter-split", R.post_form(now, key=key, content=c2, boundary=boundary, after_file=[("submit", "Upload")], frames=fr), True)
+        if it % 2 == 1 or it == 0:
+            # a correctly signed form whose body stops (end of stream, or a transport error) after the file part has begun and
+            # before its closing delimiter: nothing may be written
+            c3 = rng.choice([b"0123456789" * 40, rng.bytes(300), b"line1\r\nline2\r\n" * 10])
+            whole = R.post_form(now, key=key, content=c3, boundary=boundary)
+            start = whole.body.index(c3)
+            for cut in (start, start + 1, start + len(c3) // 2, start + len(c3), start + len(c3) + 2, len(whole.body) - 5):
+                for terr in (False, True):
+                    fr = (lambda body, cut=cut: [body[:cut][i:i + 97] for i in range(0, cut, 97)])
+                    rq3 = R.post_form(now, key=key, content=c3, boundary=boundary, frames=fr)
+                    rq3.terr = terr
+                    add("cut-short:%s" % ("transport-error" if terr else "end-of-stream"), rq3, "cut")
         if it % 2 == 0:
             for mk in ["flip", "empty", "prefix", "extend"]:
                 add("mut-signature-" + mk, R.post_form(now, key=key, content=content, boundary=boundary, break_sig=mk), False)
@@ -142,7 +158,12 @@ def run(ctx):
             ctx.violation(dict(stage="post", kind="panic or transport-level error", case=show, impl=i)); continue
         be = [e for e in r_.get("events", []) if e["ev"] == "backend"]
         accepted = bool(be)
-        if accepted:
+        if sig_ok == "cut":
+            if accepted or r_.get("response", {}).get("status", 500) < 400:
+                ctx.violation(dict(stage="post", kind="an upload whose body stopped before the closing delimiter of the file part was written / answered with success",
+                                   case=show, trace=i, status=r_.get("response", {}).get("status"),
+                                   stored=(be[0].get("body") or {}).get("data", "")[:200] if be else None))
+        elif accepted:
             if not sig_ok:
                 ctx.violation(dict(stage="post", kind="a form with an invalid signature / policy text / credential was accepted", case=show, trace=i))
             pol = dict((k.lower(), v) for k, v in fields).get("policy")
